@@ -11,6 +11,12 @@ where F is the function of the equivalent region (its arguments are: one per ker
 the result type = the output/accumulator element, which is how ParseLinalgBody builds the op:
 operands = block.args[:-1], result type = type of block.args[-1]).
 
+A body may also use values defined OUTSIDE of its block (function arguments, block arguments of an enclosing loop,
+results of other operations). Such *captured* values are further free scalar inputs of the body: the caller lists them,
+they are numbered directly after the block's own arguments (`Program.arg_widths` = block arguments + captured values,
+`Program.nblock` = number of block arguments) and every input vector carries one value for each of them. The output /
+accumulator element a kernel op reads is always the LAST BLOCK argument (`Program.out_ref`), never a captured value.
+
 `kernel_reference` restates what each kernel is meant to compute (from the op names and from the expected
 expansions in tests/filecheck/transforms/convert-kernel-to-linalg.mlir). `rescale_reference` restates the
 documented limited lowering of kernel.rescale (LowerRescale docstring: one channel, no double rounding).
@@ -64,13 +70,25 @@ class Instr:
 
 @dataclass
 class Program:
-    arg_widths: tuple
+    arg_widths: tuple  # widths of the block arguments followed by the widths of the captured (outside) values
     instrs: list = field(default_factory=list)
     yields: tuple = ()  # refs of the yielded values
+    nblock: int | None = None  # number of block arguments (None: all of arg_widths, i.e. nothing captured)
+
+    @property
+    def n_block(self):
+        return len(self.arg_widths) if self.nblock is None else self.nblock
+
+    @property
+    def out_ref(self):
+        """Index of the output / accumulator element: the last BLOCK argument."""
+        return self.n_block - 1
 
     def struct(self):
-        """Hashable structural description: equal iff same ops, same wiring, same widths."""
-        return (self.arg_widths, tuple(i.struct() for i in self.instrs), self.yields)
+        """Hashable structural description: equal iff same ops, same wiring, same widths (and the same split of the inputs
+        into block arguments and captured values)."""
+        s = (self.arg_widths, tuple(i.struct() for i in self.instrs), self.yields)
+        return s if self.n_block == len(self.arg_widths) else s + (self.n_block,)
 
     def kinds(self):
         return tuple(i.kind if i.kind != "kernel" else i.param[0] for i in self.instrs)
@@ -104,9 +122,10 @@ def check_instr(kind, ws, w):
         raise Unsupported(kind)
 
 
-def program_from_recipe(arg_widths, ops, yield_ref):
-    """ops: list of [kind, [refs], result_width]. Used to type-check recipes before any IR exists."""
-    p = Program(tuple(arg_widths))
+def program_from_recipe(arg_widths, ops, yield_ref, cap_widths=()):
+    """ops: list of [kind, [refs], result_width]. Used to type-check recipes before any IR exists.
+    cap_widths: widths of captured outside values, numbered directly after the block arguments."""
+    p = Program(tuple(arg_widths) + tuple(cap_widths), nblock=len(arg_widths) if cap_widths else None)
     for kind, refs, w in ops:
         n = len(p.arg_widths) + len(p.instrs)
         for r in refs:
@@ -150,8 +169,10 @@ def _kind_table():
 _KT = None
 
 
-def program_from_block(block):
+def program_from_block(block, captured=()):
     """Decode an xDSL block (linalg.generic body or a kernel's equivalent region) into a Program.
+    captured: the SSA values defined outside of the block that the body may use (free inputs, numbered after the block
+    arguments in the given order). An operand defined outside that is neither listed nor an integer constant is `Unsupported`.
     No width checking here; see `typecheck`."""
     from xdsl.dialects import arith, linalg
     from xdsl.dialects.builtin import IntegerAttr
@@ -162,8 +183,14 @@ def program_from_block(block):
     if _KT is None:
         _KT = _kind_table()
 
-    p = Program(tuple(_width(a.type) for a in block.args))
+    captured = tuple(captured)
+    p = Program(tuple(_width(a.type) for a in block.args) + tuple(_width(c.type) for c in captured),
+                nblock=len(block.args) if captured else None)
     index = {a: i for i, a in enumerate(block.args)}
+    for j, c in enumerate(captured):
+        if c in index:
+            raise Unsupported("captured value listed twice or is a block argument of the body")
+        index[c] = len(block.args) + j
 
     def push(ins, res):
         p.instrs.append(ins)
@@ -228,7 +255,7 @@ def typecheck(p: Program):
                 raise KernelUndefined(f"{name}: equivalent region argument widths {sub.arg_widths} do not fit the op")
             if sub.yield_widths() != (ins.width,):
                 raise KernelUndefined(f"{name}: equivalent region yields width {sub.yield_widths()}, result width {ins.width}")
-            if p.arg_widths[-1] != ins.width:
+            if p.arg_widths[p.out_ref] != ins.width:
                 raise KernelUndefined(f"{name}: result width {ins.width} differs from the body's output argument width")
         else:
             check_instr(ins.kind, ws, ins.width)
@@ -277,7 +304,7 @@ def _binary(kind, a, b, w):
 def run(p: Program, args):
     """args: ints (any sign); reduced to the argument widths. Returns the tuple of yielded values (unsigned)."""
     vals = [a & mask(w) for a, w in zip(args, p.arg_widths, strict=True)]
-    out = vals[-1] if vals else 0
+    out = vals[p.out_ref] if p.n_block else 0
     n = len(p.arg_widths)
     for ins in p.instrs:
         k = ins.kind
@@ -312,7 +339,7 @@ def compile_program(p: Program):
     names = [f"a{i}" for i in range(n)]
     env = {"_chk": _chk_shift}
     lines = [f"def f({', '.join(names)}):"]
-    out = names[-1] if names else "0"
+    out = names[p.out_ref] if p.n_block else "0"
 
     def sx(x, w):  # signed reading of an unsigned value of width w
         s = 1 << (w - 1)
@@ -476,4 +503,9 @@ def selftest():
         raise AssertionError("ill-typed recipe accepted")
     except IllTyped:
         pass
+    # captured values: numbered after the block arguments, free inputs; the accumulator stays the last block argument
+    c = program_from_recipe([8, 8, 8], [["muli", [3, 1], 8], ["addi", [4, 5], 8]], 6, cap_widths=[8, 8])
+    assert c.out_ref == 2 and c.n_block == 3 and c.struct() != q.struct()
+    assert run(c, [2, 3, 100, 5, 7]) == ((5 * 3 + 7) & 0xFF,)
+    assert compile_program(c)(2, 3, 100, 5, 7) == ((5 * 3 + 7) & 0xFF,)
     return True
